@@ -2,7 +2,7 @@
 import re
 from .extract import AnalysisBroken, REPO
 
-CHILD_KEYS = ("body", "init", "condvar", "cond", "then", "else", "inc", "range", "desugar", "sub", "val", "rhs", "lhs",
+CHILD_KEYS = ("body", "init", "condvar", "cond", "then", "else", "inc", "range", "desugar", "sub", "val", "lhs", "rhs",
               "e", "base", "idx", "t", "f", "obj", "args", "els", "ch", "handlers", "capture_inits", "calleeExpr", "vars",
               "rangeStmt", "beginStmt", "endStmt", "loopVarStmt")
 
